@@ -97,6 +97,13 @@ CHECKS = {
             'Non-interleaved 16-sector images are undecidable from their bytes (also valid 18-sector images) and only their '
             'geometry-independent LBA mapping is checked.',
             'bounded-exhaustive enumeration of (container, geometry, surface, track, sector) with self-describing sectors'),
+    'C14': ('exploration', '4 C14',
+            'All non-overlapping layouts of <=3/4 files (sector counts 0,1,2; lengths 0,1,256,257) on tiny Acorn, Watford '
+            '(every split over the two catalogue halves) and two-volume Opus discs, boundary layouts on totals 3..1023 over '
+            'every geometry, full 31/62-entry catalogues; free / space / sector-map / extract-unused compared with quantities '
+            'computed from the layout alone and with each other.',
+            'Where the property is silent about zero-length files (free high-water mark, gap splitting) both readings are accepted.',
+            'bounded-exhaustive enumeration of disc layouts against a reference allocation model'),
 }
 
 NA_REASON = 'check not built yet (work in progress; see DESIGN.md section 4)'
